@@ -12,8 +12,11 @@
    Rust HashMaps are association lists here (insertion order) plus an explicit iteration-order
    ORACLE: every `for x in &mut map` of the code visits the elements sorted by a rank the oracle
    gives to the keys.  A loop that mutates elements in place and returns early on the first error
-   (update_with, Entity::update) is `loop`: elements visited before the error — and the failing
-   element itself, as far as it got — carry their new value, the others are untouched. *)
+   (apply_update, Entity::update) is `loop`: elements visited before the error — and the failing
+   element itself, as far as it got — carry their new value, the others are untouched.
+   Since commit c4c0a2e update_with runs these loops on a clone of self and swaps it in on success
+   only (`upd` over `apply_upd`); since a0ddb65 Entity::update inserts the new fields sorted by
+   their parsed position, not in the order of the parsed text's hash map. *)
 From DV Require Export Base.
 Local Open Scope N_scope.
 
@@ -191,8 +194,7 @@ Definition sort_by {A} (rk : A -> N) (l : list A) : list A := fold_right (ins rk
 
 Record oracle := mkO { o_ns : N -> N;                  (* self.namespaces *)
                        o_ent : N -> N -> N;            (* self.namespaces[ns] *)
-                       o_fld : N -> N -> N -> N;       (* entity.fields of namespace ns, entity e *)
-                       o_new : N -> N -> N -> N }.     (* new_entity.fields (the parsed text's map) *)
+                       o_fld : N -> N -> N -> N }.     (* entity.fields of namespace ns, entity e *)
 
 (* visit in order until the first error: keys visited (the failing one included), the error *)
 Fixpoint scan {A} (key : A -> N) (f : A -> A * option err) (l : list A) : list N * option err :=
@@ -222,8 +224,8 @@ Definition upd_field (qfs : list field) (f : field) : field * option err :=
       else (mkF (f_name f) (f_short f) (f_type f) (f_default g) (f_nullable g) (f_depr g), None)
   end.
 
-(* `for field in new_entity.fields` : the remaining (new) fields, in the order the oracle gives;
-   insert_field renumbers them RESERVED_SHORT_NAMES + self.fields.len() *)
+(* `for field in new_fields` : the remaining (new) fields, sorted by their parsed short name (the
+   position in the text); insert_field renumbers them RESERVED_SHORT_NAMES + self.fields.len() *)
 Fixpoint insert_new (news : list field) (fs : list field) : list field * option err :=
   match news with
   | [] => (fs, None)
@@ -240,7 +242,7 @@ Definition entity_update (o : oracle) (nsn : N) (e q : entity) : entity * option
   match er1 with
   | Some x => (mkE (e_name e) (e_short e) fs1 (e_idx e) (e_rm e) (e_depr q) (e_ft e), Some x)
   | None =>
-      let news := sort_by (fun f => o_new o nsn (e_name e) (f_name f)) (new_fields e q) in
+      let news := sort_by f_short (new_fields e q) in
       let '(fs2, er2) := insert_new news fs1 in
       match er2 with
       | Some x => (mkE (e_name e) (e_short e) fs2 (e_idx e) (e_rm e) (e_depr q) (e_ft e), Some x)
@@ -281,10 +283,8 @@ Definition new_nss (M P : list nspace) : list nspace :=
 Definition ns_check_fails (sys : bool) (P : list nspace) : bool :=
   existsb (fun p => if sys then negb (N.eqb (n_name p) 1) else N.eqb (n_name p) 1) P.
 
-(* update_system (sys = true, decal 0) / update (sys = false, decal 1).
-   Returns the model the instance holds afterwards AND the verdict: the code mutates self while
-   it validates, so a refused version can leave a changed model behind. *)
-Definition upd (o : oracle) (sys : bool) (M : dmodel) (v : version) : dmodel * option err :=
+(* apply_update: the body of the update, run on a clone of self; mutates it while it validates *)
+Definition apply_upd (o : oracle) (sys : bool) (M : dmodel) (v : version) : dmodel * option err :=
   match parse (if sys then 0 else 1) v with
   | Err e => (M, Some e)
   | Ok P =>
@@ -297,9 +297,19 @@ Definition upd (o : oracle) (sys : bool) (M : dmodel) (v : version) : dmodel * o
         end
   end.
 
+(* update_system (sys = true, decal 0) / update (sys = false, decal 1) through update_with:
+   `updated = self.clone(); updated.apply_update(..)?; *self = updated`.
+   Returns the model the instance holds afterwards and the verdict. *)
+Definition upd (o : oracle) (sys : bool) (M : dmodel) (v : version) : dmodel * option err :=
+  let '(M', e) := apply_upd o sys M v in
+  match e with
+  | None => (M', None)
+  | Some x => (M, Some x)
+  end.
+
 (* ------------------------------------------------------------------ histories *)
 Record step := mkS { s_sys : bool; s_ver : version }.
-Definition zero_oracle : oracle := mkO (fun _ => 0) (fun _ _ => 0) (fun _ _ _ => 0) (fun _ _ _ => 0).
+Definition zero_oracle : oracle := mkO (fun _ => 0) (fun _ _ => 0) (fun _ _ _ => 0).
 
 (* a bare DataModel value to which update_system / update are applied in sequence *)
 Fixpoint run_steps (M : dmodel) (steps : list step) (os : list oracle) : list (option err * dmodel) :=
